@@ -52,7 +52,8 @@ Overlays(sh) ==
          {[NoOv EXCEPT !.map = m, !.style = s, !.trim = t] :
             m \in Opt(OneEntryMaps(ids, FlatSpecs) \cup MultiMaps(ids, {PSpec(<<N, Ell>>), PSpec(<<K1>>), PSpec(<<Ell>>)})
                       \cup {<<Entry({IdA}, PSpec(<<N, K1>>)), Entry({IdC}, PSpec(<<N, K2>>))>>, <<Entry({IdA}, PSpec(<<K1>>)), Entry({IdA, IdB}, PSpec(<<N, Ell>>))>>}),
-            s \in Opt({"upper", "camel"}), t \in Opt(BOOLEAN)}
+            \* "other" stands for any one of the 16 documented styles (chosen per program by the concretisation)
+            s \in Opt({"upper", "camel", "other"}), t \in Opt(BOOLEAN)}
     [] Slice = "B" ->
          {[NoOv EXCEPT !.map = m, !.skip = sk, !.only = on] :
             m \in Opt({<<Entry({i}, NoneSpec)>> : i \in ids} \cup {<<Entry({i}, PSpec(<<K1>>))>> : i \in ids}),
